@@ -127,7 +127,10 @@ class Ser:
         if h == 'fn':
             return getattr(sympy, s[1])(self.build(s[2]))
         if h == 'pd':
-            return self.pd[str(s[1])](self.build(s[2]), evaluate=False)
+            a = self.build(s[2])
+            if a == 0:
+                return m['S'].Zero          # a derivative of the literal zero
+            return self.pd[str(s[1])](a, evaluate=False)
         if h in self.op1:
             return self.op1[h](self.build(s[1]), evaluate=False)
         if h in self.op2:
